@@ -665,3 +665,15 @@ Qed.
 Lemma wait_no_drain_refuted :
   exists t now w, 0 < w /\ t_pending t = false /\ wait_wakes false t now w < now + w.
 Proof. exists (mkT false 80 80), 320, 80. vm_compute. repeat split; reflexivity. Qed.
+
+(* ------------------------------------------------------------------ spawn path *)
+Lemma spawn_not_after_effective_kill c inh now t :
+  spawn_connect c inh now = Some t -> kill_passed (absorb_kill c inh) t = false.
+Proof.
+  unfold spawn_connect. destruct (kill_passed (absorb_kill c inh) now) eqn:K; [discriminate|].
+  intros H. inversion H; subst. exact K.
+Qed.
+
+Lemma spawn_gate_is_inherited c inh now :
+  spawn_connect c inh now = match inh with Some k => if k <? now then None else Some now | None => Some now end.
+Proof. unfold spawn_connect, kill_passed, absorb_kill. cbn [k_kill]. destruct inh; reflexivity. Qed.
